@@ -285,6 +285,9 @@ func (m *Machine) nodeElemType(first *Node) types.Type {
 	if t == nil {
 		panic(abort{kind: abortInfeasible, msg: "typed container with null element"})
 	}
+	for w := m.nodeWrap(first); w > 0; w-- {
+		t = types.NewPointer(t)
+	}
 	return t
 }
 
@@ -946,7 +949,7 @@ func (m *Machine) rindex(idx Value, n int) int {
 // childRV returns the Value that Index/MapIndex yields for child under parent.
 func (m *Machine) childRV(parent, child *Node) *RV {
 	if parent.CRep.Op != smt.OpConst && m.Branch(m.simp(parent.TypedContainer()), "reflect.child.typed") {
-		return &RV{N: child}
+		return &RV{N: child, Ptr: m.nodeWrap(child)}
 	}
 	return &RV{N: child, Wrapped: true}
 }
